@@ -290,6 +290,16 @@ struct snapraid_io {
 	int writer_error[IO_WRITER_ERROR_MAX];
 
 	/**
+	 * Positions of the blocks with a failed parity write.
+	 *
+	 * They are collected by the writers, and reported by io_write_bad().
+	 * At most io_max positions for each writer can be pending.
+	 */
+	block_off_t* writer_bad_map;
+	unsigned writer_bad_mac; /**< Number of positions in ::writer_bad_map. */
+	unsigned writer_bad_max; /**< Allocated size of ::writer_bad_map. */
+
+	/**
 	 * Bandwidth
 	 */
 	struct snapraid_bw bw;
@@ -401,6 +411,18 @@ extern void (*io_write_next)(struct snapraid_io* io, block_off_t blockcur, int s
  * \param writer_error Return the number of errors. Vector of IO_WRITER_ERROR_MAX elements.
  */
 void io_write_flush_errors(struct snapraid_io* io, int* writer_error);
+
+/**
+ * Get the position of a block with a failed parity write.
+ *
+ * The block has to be marked as bad, because its parity is not the one
+ * of the data recorded in the content file.
+ * Call it repeatedly, after io_write_next() and after io_stop(),
+ * until it returns 0.
+ * \param position Return the position of the block.
+ * \return 0 if no more positions are pending.
+ */
+int io_write_bad(struct snapraid_io* io, block_off_t* position);
 
 /**
  * Refresh the number of cached blocks for all data and parity disks.
